@@ -10,7 +10,7 @@ git -C /repo worktree add --detach "$wt" HEAD >/dev/null 2>&1 || { echo "seed_te
 cleanup() { git -C /repo worktree remove --force "$wt" >/dev/null 2>&1; rm -rf "$wt"; }
 trap cleanup EXIT
 if ! git -C "$wt" apply "$patch" 2>/dev/null; then echo "seed_test: patch does not apply: $patch"; exit 3; fi
-cd /verif && VERIF_REPO="$wt" ./check "$prop" --tier "$tier" --evidence-dir "/tmp/seedt/ev-$$" 2>&1 | tail -6
+cd "${VERIF_DIR:-/verif}" && VERIF_REPO="$wt" ./check "$prop" --tier "$tier" --evidence-dir "/tmp/seedt/ev-$$" 2>&1 | tail -6
 rc=${PIPESTATUS[0]}
 rm -rf "/tmp/seedt/ev-$$"
 echo "seed_test: $patch on $prop/$tier -> check exit $rc"
